@@ -21,9 +21,18 @@ static WAKES: AtomicUsize = AtomicUsize::new(0);
 /// hand-made wakers: one per (task, stage); clones and drops are counted (so the waker registered in an iterator is
 /// observable) and every clone is logged as a `reg` marker in the atomic-event log (program order of the registration)
 struct WCell { refs: std::cell::Cell<isize> }
+thread_local! {
+    /// `inj <poll> | <step>`: a step of ANOTHER stage, performed inside the polling task's `Waker::clone` - i.e. inside `register_waker`,
+    /// between the first and the second attempt of `MRBFuture::poll` (the only way to reach the branch "the second attempt succeeds")
+    static INJECT: std::cell::RefCell<Option<Box<dyn FnOnce() -> String>>> = std::cell::RefCell::new(None);
+    static INJ_RESULT: std::cell::RefCell<Option<String>> = std::cell::RefCell::new(None);
+}
 unsafe fn w_clone(p: *const ()) -> RawWaker {
     let c = &*(p as *const WCell); c.refs.set(c.refs.get() + 1);
     hooks::event(hooks::Kind::BufAlloc, usize::MAX);
+    if log_is_on() {
+        if let Some(f) = INJECT.with(|c| c.borrow_mut().take()) { let r = f(); INJ_RESULT.with(|c| *c.borrow_mut() = Some(r)); }
+    }
     RawWaker::new(p, &VTABLE)
 }
 unsafe fn w_wake(p: *const ()) { WAKES.fetch_add(1, Ordering::SeqCst); w_drop(p) }
@@ -186,6 +195,33 @@ impl<T: Item + ItemA + 'static, const WK: bool> Sess<T, WK> {
                         other => { $slot = other; bad.clone() }
                     } } }
                 match k { 0 => rw!(self.p, AsyncProdIter<'static, B<T>>), 1 => rw!(self.w, AsyncWorkIter<'static, B<T>>), _ => rw!(self.c, AsyncConsIter<'static, B<T>, WK>) }
+            }
+            "inj" => {
+                // the same gate as the Model's `astep_inj`: a poll on stage k (one-shot, kept, re-poll) and a step of another stage k'
+                // (a synchronous method or a one-shot future)
+                let bar = match words.iter().position(|w| *w == "|") { Some(b) => b, None => return bad };
+                let (pw, dw) = (&words[1..bar], &words[bar + 1..]);
+                if pw.is_empty() || dw.len() < 1 { return "bad inj:-".into(); }
+                let k = match pw[0] { "hold" => if pw.len() > 1 { fut_stage(&pw[1..]) } else { None },
+                                      "repoll" => if pw.len() > 1 && self.held[kidx(pw[1])].is_some() { Some(kidx(pw[1])) } else { None },
+                                      "dropfut" | "task" | "rewrap" | "inj" => None,
+                                      _ => fut_stage(pw) };
+                let k2 = match dw[0] {
+                    "avail" | "adv" | "reset" | "detach" | "attach" | "sync" | "goback" | "poke" | "pokeinit" | "edit" | "drop" =>
+                        if dw.len() > 1 && matches!(dw[1], "P" | "W" | "C") && !(dw[0] == "avail" && self.is_det(kidx(dw[1]))) { Some(kidx(dw[1])) } else { None },
+                    "hold" | "repoll" | "dropfut" | "task" | "rewrap" | "inj" => None,
+                    _ => fut_stage(dw) };
+                let (k, k2) = match (k, k2) { (Some(a), Some(b)) if a != b => (a, b), _ => return "bad inj:-".into() };
+                let _ = k2;
+                if pw[0] != "repoll" && (!self.here(k) || self.is_det(k) || !self.free(k)) { return "bad inj:-".into(); }
+                let me = self as *mut Self;
+                let dwords: Vec<String> = dw.iter().map(|x| x.to_string()).collect();
+                INJECT.with(|c| *c.borrow_mut() = Some(Box::new(move || { let w: Vec<&str> = dwords.iter().map(|x| x.as_str()).collect(); unsafe { (*me).step(&w) } })));
+                INJ_RESULT.with(|c| *c.borrow_mut() = None);
+                let r = self.step(pw);
+                INJECT.with(|c| *c.borrow_mut() = None);
+                let fired = INJ_RESULT.with(|c| c.borrow_mut().take());
+                format!("{} inj:{}", r, fired.unwrap_or("-".into()))
             }
             "hold" | "repoll" | "dropfut" => {
                 if words[0] == "dropfut" {
